@@ -240,6 +240,66 @@ class SymNp:
         return np.cumsum(x, *a, **k)
 
 
+class SymSet:
+    """set() over values that may be symbolic: membership and de-duplication by ``==``
+    (forks) instead of hashing (which would concretise every element).  Iteration order
+    is insertion order; callers that depend on order sort anyway (order of a real set is
+    arbitrary, so code relying on it would be wrong already)."""
+
+    def __init__(self, items=()):
+        self.items = []
+        for x in items:
+            self.add(x)
+
+    def add(self, x):
+        if x not in self:
+            self.items.append(x)
+
+    def __contains__(self, x):
+        for y in self.items:
+            if x is y or x == y:
+                return True
+        return False
+
+    def __iter__(self):
+        return iter(list(self.items))
+
+    def __len__(self):
+        return len(self.items)
+
+    def __bool__(self):
+        return bool(self.items)
+
+    def pop(self):
+        return self.items.pop()
+
+    def __or__(self, o):
+        return SymSet(list(self.items) + list(o))
+
+    def __and__(self, o):
+        return SymSet([x for x in self.items if x in o])
+
+    def __sub__(self, o):
+        return SymSet([x for x in self.items if x not in o])
+
+    def __eq__(self, o):
+        return len(self) == len(o) and all(x in o for x in self.items)
+
+
+class _SetMeta(type):
+    def __instancecheck__(cls, obj):
+        return isinstance(obj, (builtins.set, SymSet))
+
+
+class sym_set(metaclass=_SetMeta):
+    def __new__(cls, it=()):
+        it = list(it)
+        if any(isinstance(v, (SymInt, SymReal)) or (isinstance(v, tuple) and any(isinstance(u, (SymInt, SymReal)) for u in v))
+               for v in it):
+            return SymSet(it)
+        return builtins.set(it)
+
+
 def pure_cached_cumsum(seq, initial_zero=False):
     """dask.utils.cached_cumsum without the identity/hash cache (same values)."""
     out = []
@@ -255,13 +315,14 @@ def pure_cached_cumsum(seq, initial_zero=False):
 
 
 SHIM_BUILTINS = dict(slice=SymSlice, range=sym_range, len=sym_len, min=sym_min, max=sym_max,
-                     int=sym_int, float=sym_float, round=sym_round)
+                     int=sym_int, float=sym_float, round=sym_round, set=sym_set)
 SHIM_LIST = [
     "slice -> SymSlice (symbolic .indices = model of PySlice_AdjustIndices)",
     "range/len -> symbolic range length",
     "min/max -> ite merge instead of fork",
     "int/float -> identity/trunc on proxies, isinstance-compatible",
     "round -> half-even on exact reals",
+    "set -> equality-based SymSet when elements are symbolic (no hashing)",
     "math.isnan/ceil/floor/prod on proxies; math.log/sqrt concretise",
     "np.isnan/ceil/floor/prod/cumsum on proxies; np.log/sqrt concretise",
     "dask.utils.cached_cumsum -> same values without the identity/hash cache",
